@@ -54,13 +54,13 @@ def lz_member(d):
 
 def make_modes(ctx):
     rng, quick = ctx.rng, ctx.quick()
-    n1 = rng.randrange(50000, 70000)
+    B = L.IOBUF          # IO_BUFFER_SIZE of this source tree (Gen/C17.lean)
+    n1 = rng.randrange(6 * B + 1000, 8 * B + 4000)
     plain = gen_text(rng, n1)
     comp = xzc(plain, preset=1)
-    small = [gen_text(rng, rng.randrange(9000, 14000)) for _ in range(3)]
-    sparse = gen_text(rng, 8192 + 100) + bytes(2 * 8192) + gen_text(rng, 3000) + bytes(8192 - 3000) + bytes(3 * 8192)
-    # the text ends inside a buffer: the decoder's output buffers are [8192+100 | zeros...]; make the buffers line up
-    sparse = gen_text(rng, 8192) + bytes(2 * 8192) + gen_text(rng, 8192) + bytes(3 * 8192)
+    small = [gen_text(rng, rng.randrange(B + 800, 2 * B - 2000)) for _ in range(3)]
+    tiny = gen_text(rng, rng.randrange(1500, min(6000, B - 100)))   # smaller than one buffer: read, EOF, finish in ONE loop iteration
+    sparse = gen_text(rng, B) + bytes(2 * B) + gen_text(rng, B) + bytes(3 * B)
     F = lambda src, dst, data, pl: {"src": src, "dst": dst, "data": data, "plain": pl}
     m = []
     m.append(Mode("compress", [], [F("a.txt", "a.txt.xz", plain, plain)]))
@@ -71,7 +71,7 @@ def make_modes(ctx):
     m.append(Mode("compress-stdout", ["-c"], [F("a.txt", None, plain, plain)], stdout=True))
     m.append(Mode("decompress-stdout", ["-dc"], [F("a.xz", None, comp, plain)], direction="d", stdout=True))
     m.append(Mode("decompress-truncated", ["-d"], [F("a.xz", "a", comp[:len(comp) * 2 // 3], plain)], direction="d", valid=False))
-    m.append(Mode("decompress-garbage", ["-d"], [F("a.xz", "a", plain[:20000], plain)], direction="d", valid=False, init_ok=False))
+    m.append(Mode("decompress-garbage", ["-d"], [F("a.xz", "a", plain[:2 * B + 3616], plain)], direction="d", valid=False, init_ok=False))
     m.append(Mode("compress-no-sync", ["--no-sync"], [F("a.txt", "a.txt.xz", plain, plain)], sync=False))
     m.append(Mode("compress-multi", [], [F("f%d" % i, "f%d.xz" % i, small[i], small[i]) for i in range(3)]))
     m.append(Mode("decompress-sparse", ["-d"], [F("s.xz", "s", xzc(sparse, preset=1), sparse)], direction="d"))
@@ -83,11 +83,11 @@ def make_modes(ctx):
     m.append(Mode("decompress-keep", ["-dk"], [F("a.xz", "a", comp, plain)], direction="d", keep=True))
     # several files with mixed outcomes in ONE invocation (per-file state must be reset): a file ending in a sparse
     # tail, then garbage, then a file whose size is an exact multiple of the 8 KiB I/O buffer
-    tail_sparse = gen_text(rng, 5000) + bytes(8192 - 5000) + bytes(2 * 8192)
-    exact = gen_text(rng, 3 * 8192)
+    tail_sparse = gen_text(rng, B - 3192) + bytes(3192) + bytes(2 * B)
+    exact = gen_text(rng, 3 * B)
     m.append(Mode("decompress-multi-mixed", ["-d"], [
         F("m1.xz", "m1", xzc(tail_sparse, preset=1), tail_sparse),
-        dict(F("m2.xz", "m2", plain[:9000], plain), valid=False, init_ok=False),
+        dict(F("m2.xz", "m2", plain[:B + 808], plain), valid=False, init_ok=False),
         F("m3.xz", "m3", xzc(exact, preset=1), exact)], direction="d"))
     m.append(Mode("compress-exact-8k", [], [F("e.txt", "e.txt.xz", exact, exact)]))
     # SIGPIPE inherited as ignored (service managers do that): xz installs no handler; a broken pipe is only an EPIPE
@@ -97,9 +97,15 @@ def make_modes(ctx):
     # several files to standard output in one invocation: a file aborted half-way must not leak state into the next one
     m.append(Mode("decompress-stdout-multi", ["-dc"], [F("p1.xz", None, xzc(tail_sparse, preset=1), tail_sparse),
                                                           F("p2.xz", None, xzc(exact, preset=1), exact)], direction="d", stdout=True))
+    # files smaller than one I/O buffer: read + EOF + LZMA_FINISH + LZMA_STREAM_END happen in ONE iteration of the coding
+    # loop, so a signal that arrives during the (only) read is first noticed after the conversion has COMPLETED: the
+    # target is complete, synced and closed, the source is removed, then xz dies by the signal (allowed by the property)
+    m.append(Mode("compress-tiny", [], [F("t.txt", "t.txt.xz", tiny, tiny)]))
+    m.append(Mode("decompress-tiny", ["-d"], [F("t.xz", "t", xzc(tiny, preset=1), tiny)], direction="d"))
+    m.append(Mode("compress-tiny-multi", [], [F("t%d" % i, "t%d.xz" % i, tiny[i * 400:], tiny[i * 400:]) for i in range(3)]))
     # verbosity x per-file outcome x several files: a file that fails BEFORE producing output (27 bytes: inside the first
     # Block Header), one that fails late, then good files; progress messages on (-v / -vv) or everything off (-q)
-    good2 = gen_text(rng, 12000)
+    good2 = gen_text(rng, B + 3808)
     early = dict(F("e1.xz", "e1", comp[:27], plain), valid=False)
     late = dict(F("e2.xz", "e2", comp[:len(comp) * 2 // 3], plain), valid=False)
     gfiles = [F("g1.xz", "g1", xzc(small[0], preset=1), small[0]), F("g2.xz", "g2", xzc(good2, preset=1), good2)]
@@ -117,13 +123,13 @@ def make_modes(ctx):
     mk_alone = lambda d: lzma.compress(d, format=lzma.FORMAT_ALONE, preset=1)
     mk_raw = lambda d: lzma.compress(d, format=lzma.FORMAT_RAW, filters=[{"id": lzma.FILTER_LZMA2, "preset": 1}])
     raw_args = ["-d", "--format=raw", "--suffix=.raw", "--lzma2=preset=1"]
-    d1, c1 = fit(mk_alone, 8192, rng)
+    d1, c1 = fit(mk_alone, B, rng)
     m.append(Mode("decompress-lzma-boundary-garbage", ["-d"], [F("a.lzma", "a", c1 + mk_alone(plain[:3000]), d1)], direction="d", valid=False))
-    d2, c2 = fit(mk_raw, 8192, rng)
+    d2, c2 = fit(mk_raw, B, rng)
     m.append(Mode("decompress-raw-boundary-garbage", raw_args, [F("a.raw", "a", c2 + b"\x01trailing bytes", d2)], direction="d", valid=False))
-    d3, c3 = fit(lambda d: lzma.compress(d, preset=1), 8192, rng)
+    d3, c3 = fit(lambda d: lzma.compress(d, preset=1), B, rng)
     m.append(Mode("decompress-xz-boundary-garbage", ["-d"], [F("b.xz", "b", c3 + b"garbage after the stream", d3)], direction="d", valid=False))
-    d4, c4 = fit(lz_member, 8192, rng)
+    d4, c4 = fit(lz_member, B, rng)
     m.append(Mode("decompress-lz-boundary-trailing", ["-d"], [F("c.lz", "c", c4 + b"trailing data is allowed after .lz", d4)], direction="d"))
     # one hooked signal inherited as ignored (e.g. SIGINT for `xz file &` from a non-interactive shell): the handlers
     # of all OTHER signals must still be installed, the ignored one must stay without effect
@@ -133,9 +139,9 @@ def make_modes(ctx):
         for sg, nm in ((15, "sigterm"), (13, "sigpipe"), (24, "sigxcpu"), (25, "sigxfsz")):
             m.append(Mode("compress-%s-ignored" % nm, [], [F("a.txt", "a.txt.xz", small[2], small[2])], ignored_sig=sg))
         m.append(Mode("decompress-sigint-ignored", ["-d"], [F("a.xz", "a", xzc(small[2], preset=1), small[2])], direction="d", ignored_sig=2))
-        d5, c5 = fit(mk_alone, 16384, rng)
+        d5, c5 = fit(mk_alone, 2 * B, rng)
         m.append(Mode("decompress-lzma-boundary16k-garbage", ["-d"], [F("a.lzma", "a", c5 + b"\0" * 5, d5)], direction="d", valid=False))
-        d6, c6 = fit(mk_raw, 16384, rng)
+        d6, c6 = fit(mk_raw, 2 * B, rng)
         m.append(Mode("decompress-raw-boundary16k-garbage", raw_args, [F("a.raw", "a", c6 + c2, d6)], direction="d", valid=False))
         m.append(Mode("decompress-lzma-boundary-valid", ["-d"], [F("a.lzma", "a", c1, d1)], direction="d"))
     if not quick:
@@ -290,6 +296,28 @@ def direct_oracle(mode, plan, res, ref_events):
                 and r["name"] not in ("<stdin>", "<stdout>") and b != 0x3f:
             bad.append("call #%d %s runs with hooked signals unblocked (mask %#x)" % (r["k"], r["op"], b))
             break
+    # the source may go only AFTER the target was written, synced (when syncing is on) and closed successfully -- read off
+    # the recorded calls themselves (no model): positions of the last write / fsync / close of the target vs unlink(source)
+    for f in mode.files:
+        if not f["dst"] or not mode.file_dest:
+            continue
+        us = [r["k"] for r in obs if r["op"] == "unlink" and r["name"] == f["src"] and r["ret"] == 0]
+        if not us:
+            continue
+        u = us[0]
+        def last(op, name, ok=True):
+            ks_ = [r["k"] for r in obs if r["op"] == op and r["name"] == name and r["k"] < u and (r["ret"] >= 0) == ok]
+            return ks_[-1] if ks_ else None
+        cl = last("close", f["dst"])
+        wr = max([r["k"] for r in obs if r["op"] in ("write", "lseek") and r["name"] == f["dst"] and r["k"] < u] or [0])
+        badclose = [r for r in obs if r["op"] == "close" and r["name"] == f["dst"] and r["k"] < u and r["ret"] < 0]
+        if cl is None or badclose or cl < wr:
+            bad.append("%s unlinked (call #%d) without a successful close of the target after its last write" % (f["src"], u))
+        if mode.sync and not mode.keep_eff:
+            fs_ = last("fsync", f["dst"])
+            fd_ = [r["k"] for r in obs if r["op"] == "fsync" and r["name"] == "." and r["ret"] == 0 and wr < r["k"] < u]
+            if fs_ is None or fs_ < wr or not fd_ or (cl is not None and not (fs_ < cl)):
+                bad.append("%s unlinked (call #%d) before the target and its directory were fsync'ed" % (f["src"], u))
     # multi-file runs: which files were hit by an injection (None = cannot tell: directory, stdout)
     hit = set()
     for op, nm, i_, r in inj:
@@ -368,10 +396,14 @@ def direct_oracle(mode, plan, res, ref_events):
         bad.append("signal %d was delivered but xz ended with %s" % (psig[1], rc))
     if plan.epipe is not None and mode.sigpipe_ignored and not crashed and any("P" in i for _, _, i, _ in inj) and rc != 1:
         bad.append("write failed with EPIPE while SIGPIPE is ignored, yet xz ended with %s instead of exit status 1" % rc)
-    if signalled and not crashed and psig and len(mode.files) == 1 and not mode.stdin:
-        first_rw = next((e["k"] for e in flat if e["op"] in ("read", "write")), None)
-        if mode.direction == "c" and first_rw is not None and psig[0] <= first_rw and any_removed:
-            bad.append("signal before the first read, yet the source was removed")
+    # After a delivered termination signal xz may still complete the file it is working on (the flag is looked at only
+    # at the loop heads; R1/R4/R8 above say what "complete" must mean) but it must not start another file.
+    if signalled and not crashed:
+        ks = next((r["k"] for op_, nm_, i_, r in inj if _delivers(i_)), None)
+        srcs = {f["src"] for f in mode.files}
+        late = [r for r in obs if ks is not None and r["k"] > ks and r["op"] == "open" and r["name"] in srcs]
+        if late:
+            bad.append("xz opened %s (call #%d) after the termination signal had arrived at call #%d" % (late[0]["name"], late[0]["k"], ks))
     if crashed is False and plan.crash and res["rc"] not in (0, 1, 2):
         pass
     return bad
@@ -451,7 +483,21 @@ def compare(mode, plan, res, observed_events, model_out):
 # the check
 # ---------------------------------------------------------------------------------------------------------------
 
+def stage_g(ctx):
+    """regenerate Gen/C17.lean (IO_BUFFER_SIZE) from the source and tell the harness library"""
+    ok, log = vlib.gen_probe("gen_c17", "gen_c17.c", "XzVerif.Gen.C17", incs=["src/xz", "src/common", "src/liblzma/api"])
+    if not ok:
+        ctx.obligation_broken("stage G: Gen/C17.lean cannot be regenerated from src/xz/file_io.h", log)
+        return False
+    import re as _re
+    mm = _re.search(r"def ioBufferSize : Nat := (\d+)", open(vlib.module_path("XzVerif.Gen.C17")).read())
+    L.IOBUF = int(mm.group(1))
+    return True
+
+
 def prepare(ctx):
+    if not stage_g(ctx):
+        return None
     ok, log, bd = vlib.c_build("rel")
     if not ok:
         ctx.obligation_broken("stage B: /repo does not build (rel)", log)
@@ -522,6 +568,7 @@ def run(ctx):
         "libc-internal calls that bypass the PLT (stdio, fclose(stdout)) are not observed; signals are raised synchronously by the interposer before a call, not at arbitrary instructions",
         "the lstat()/unlink() window of io_unlink is an acknowledged race in the source and is not perturbed",
     ]
+    stage_g(ctx)
     p_ok = ctx.lean_stage(["XzVerif.Props.C17"], exes=["xzm_c17"])
     pr = prepare(ctx)
     if pr is None:
